@@ -35,6 +35,7 @@ def actSexp : Act → Sexp
   | .failF => .list [.atom "failF"]
   | .condFalse b => .list [.atom "condFalse", ofBool b]
   | .condTrue => .list [.atom "condTrue"]
+  | .name n m al => .list [.atom "name", ofChars n, ofBool m, ofBool al]
 
 def kindSexp : Kind → Sexp
   | .lit m => .list [.atom "lit", ofChars m]
